@@ -116,6 +116,38 @@ theorem C01_track_commits (c : Cfg) (o : TrackOpts) (s : St) (p : Path) (b : Byt
   · intro ob hob
     exact carryOne_keep _ p _ _ _ _ (by simpa using hob)
 
+/-- **C01_track_commits_beside_other_extension**: the same bytes committed under two EXTENSIONS
+    (`model.bin`, `model.bak`) share the digest — on disk the digest directory `<algo>/<3>/<3>/<58>/` —
+    but not the object (`0.bin`, `0.bak`).  An object of the digest under another extension (a fortiori an
+    empty digest directory, which is no object at all: the cache of the model maps ADDRESSES, digest plus
+    extension, to objects) does not stand for the object of `p`: `track` stores the bytes of `p` at
+    `p`'s own address and leaves the other object alone. -/
+theorem C01_track_commits_beside_other_extension (c : Cfg) (o : TrackOpts) (s : St) (p q : Path) (b : Bytes) (w : Bool)
+    (st : Nat) (l : Option Addr) (hw : s.ws p = some (.file b w st l)) (hnew : s.findEnt p = none)
+    (hc : o.noCommit = false) (hf : o.force = false) (ob : Obj)
+    (hq : s.cache (addrOf q (digestOf c.algo (o.tob.getD c.tob) b)) = some ob)
+    (hnone : s.cache (addrOf p (digestOf c.algo (o.tob.getD c.tob) b)) = none) :
+    (s.trackOne c o p).1.cache (addrOf p (digestOf c.algo (o.tob.getD c.tob) b)) = some ⟨b, true, st⟩ ∧
+    (s.trackOne c o p).1.cache (addrOf q (digestOf c.algo (o.tob.getD c.tob) b)) = some ob := by
+  refine ⟨(C01_track_commits c o s p b w st l hw hnew hc hf).2.1 hnone, ?_⟩
+  have hr := readThrough_file hw
+  unfold St.trackOne
+  simp only [hr]
+  unfold St.trackFile
+  simp only [hnew, hc, Bool.false_eq_true, if_false, hf]
+  exact carryOne_keep _ p _ _ _ _ (by simpa using hq)
+
+/-- the same at command level, on a concrete history: one content under two extensions, committed by one
+    `track`, both workspace files deleted, one `recheck`: both paths yield the committed bytes, from two
+    objects -/
+theorem C01_cross_extension_witness :
+    let s0 := (St.init.userWrite ⟨0, 1⟩ [104, 0]).userWrite ⟨1, 2⟩ [104, 0]
+    let s1 := ((s0.track {} {} [⟨0, 1⟩, ⟨1, 2⟩]).1.userDelete ⟨0, 1⟩).userDelete ⟨1, 2⟩
+    let s2 := (s1.recheck {} none false [⟨0, 1⟩, ⟨1, 2⟩]).1
+    (s2.readThrough ⟨0, 1⟩).map (·.1) = some [104, 0] ∧ (s2.readThrough ⟨1, 2⟩).map (·.1) = some [104, 0] ∧
+    (s2.cache ⟨⟨0, [104, 0]⟩, 1⟩).isSome = true ∧ (s2.cache ⟨⟨0, [104, 0]⟩, 2⟩).isSome = true := by
+  decide
+
 /-- the strip collision (K1): two different byte strings with the same text digest -/
 theorem C01_crlf_counterexample :
     digestOf 0 .auto [108, 49, 10] = digestOf 0 .auto [108, 49, 13, 10] ∧ ([108, 49, 10] : Bytes) ≠ [108, 49, 13, 10] := by
@@ -158,3 +190,7 @@ open Repo in
 #print axioms C01_crlf_restores_other_bytes
 open Repo in
 #print axioms C01_digest_injective_same_mode
+open Repo in
+#print axioms C01_track_commits_beside_other_extension
+open Repo in
+#print axioms C01_cross_extension_witness
